@@ -170,6 +170,24 @@ def prepare(ctx):
                 ctx.broken.append(('build', 'race harness does not build: ' + out[-600:]))
 
 
+def import_closure(module):
+    """lean source files of this project reachable from `module` through import lines"""
+    seen, todo, files = set(), [module], []
+    while todo:
+        m = todo.pop()
+        if m in seen:
+            continue
+        seen.add(m)
+        f = os.path.join(LEAN, *m.split('.')) + '.lean'
+        if not os.path.exists(f):
+            continue
+        files.append(f)
+        for imp in re.findall(r'^import\s+(\S+)', open(f).read(), flags=re.M):
+            if imp.startswith('Kevo') or imp.startswith('Driver'):
+                todo.append(imp)
+    return files
+
+
 def audit(ctx, proofs_built):
     """#print axioms for every theorem of the property's Props module + forbidden-token grep."""
     p = ctx.prop
@@ -185,7 +203,7 @@ def audit(ctx, proofs_built):
     ctx.cov['open_statements'] = statements
     # forbidden tokens anywhere in the lean sources (comments stripped)
     bad = []
-    for f in glob.glob(os.path.join(LEAN, 'Kevo', '**', '*.lean'), recursive=True):
+    for f in import_closure(p.lean_module):
         body = re.sub(r'/-.*?-/', '', open(f).read(), flags=re.S)
         for i, line in enumerate(body.splitlines()):
             line = line.split('--')[0]
